@@ -98,7 +98,7 @@ def build(rng, *, block_size: int, sector_size: int, nblocks: int, tail_cut_sect
           disk_id: bytes | None = None, physical_sector_size: int = 4096, far_mb: int = 0, stale_offsets: bool = True,
           meta_item_order=None, item_gap: int = 0, creator: str = "vf writer", leave_alloc: bool = False,
           bat_mb: int | None = None, meta_mb: int | None = None, checksums: bool = True, meta_table_order=None, log_guids=(None, None),
-          extra_regions=(), extra_items=(), items_at_region_end: bool = False):
+          extra_regions=(), extra_items=(), items_at_region_end: bool = False, regions_last: bool = False):
     """-> (SparseFile, Layer, meta).
 
     states[i]: 0 not-present, 1 undefined, 2 zero, 3 unmapped, 6 fully present, 7 partially present.
@@ -142,6 +142,9 @@ def build(rng, *, block_size: int, sector_size: int, nblocks: int, tail_cut_sect
         rng.shuffle(groups)
         order = [i for g in groups for i in g]
     pos_mb = {}
+    if regions_last:
+        # payload blocks first (right behind the log), the metadata region and the BAT behind them: regions may sit anywhere
+        first_data_mb = 2
     cursor = first_data_mb
     far_cursor = far_mb
     # sector bitmap blocks first (one per chunk that has a partial block)
@@ -163,6 +166,10 @@ def build(rng, *, block_size: int, sector_size: int, nblocks: int, tail_cut_sect
             cursor += rng.randrange(1, 4)
         pos_mb[i] = cursor
         cursor += blk_mb
+    if regions_last:
+        meta_mb = cursor + rng.randrange(0, 3)
+        bat_mb = meta_mb + 1 + rng.randrange(0, 3)
+        cursor = bat_mb + bat_len_mb
     # BAT
     bat = [0] * bat_len_entries
     for i, st in enumerate(states):
